@@ -17,12 +17,13 @@ def toml_key(name):
     return "'" + name + "'" if '"' in name else '"' + name + '"'
 
 
-def make_repo(pr, target, state, pat_name="ver.txt", other="notes.txt"):
+def make_repo(pr, target, state, pat_name="ver.txt", other="notes.txt", extra_dirty=None):
     """build a real git repo in which `target` ('pattern' | 'config' | 'unrelated') is in `state`"""
     pr.write_text("bumpver.toml", CFG % toml_key(pat_name))
     pr.write_text(pat_name, "version 1.2.3\n")
     pr.write_text(other, "notes\n")
     pr.write_text("spare.txt", "spare\n")
+    pr.write_text("a_first.txt", "first\n")
     pr.git_init()
     fname = {"pattern": pat_name, "config": "bumpver.toml", "unrelated": other}[target]
     fresh = state in ("added", "added_mod", "untracked", "renamed_to")
@@ -56,6 +57,12 @@ def make_repo(pr, target, state, pat_name="ver.txt", other="notes.txt"):
         pr.git("rm", "-q", fname)
     else:
         return None
+    if extra_dirty == "staged":
+        open(pr.path("a_first.txt"), "a").write("# edit\n"); pr.git("add", "a_first.txt")
+    elif extra_dirty == "unstaged":
+        open(pr.path("a_first.txt"), "a").write("# edit\n")
+    elif extra_dirty == "untracked":
+        pr.write_text("a_aaa_untracked.txt", "x\n")
     return fname
 
 
@@ -78,10 +85,10 @@ def quoted_region(pat_name, target, state):
     return None
 
 
-def e2e(target, state, allow, pat_name="ver.txt"):
-    case = {"kind": "e2e", "target": target, "state": state, "allow_dirty": allow, "pattern_file": pat_name}
+def e2e(target, state, allow, pat_name="ver.txt", extra_dirty=None):
+    case = {"kind": "e2e", "target": target, "state": state, "allow_dirty": allow, "pattern_file": pat_name, "extra_dirty": extra_dirty}
     with sandbox.Project("c11") as pr:
-        fname = make_repo(pr, target, state, pat_name)
+        fname = make_repo(pr, target, state, pat_name, extra_dirty=extra_dirty)
         if fname is None:
             return None, None, None
         status = pr.git("status", "--porcelain")
@@ -96,6 +103,8 @@ def e2e(target, state, allow, pat_name="ver.txt"):
         status_after = pr.git("status", "--porcelain")
     case.update(exit=code, exc=exc, committed=committed)
     want_abort = expected_abort(target, state, allow)
+    if extra_dirty in ("staged", "unstaged") and not allow:
+        want_abort = True           # another tracked file is dirty
     file_missing = state in ("del_unstaged", "del_staged") and target in ("pattern", "config")
     verdict = None
     if want_abort:
@@ -106,7 +115,7 @@ def e2e(target, state, allow, pat_name="ver.txt"):
     else:
         if code != 0:
             verdict = "update aborted (exit %s %s) although only an unrelated file is %s (allow_dirty=%s)" % (code, exc, state, allow)
-        elif sorted(committed) != sorted(["bumpver.toml", pat_name]) and state in ("clean", "mod_unstaged", "untracked", "del_unstaged"):
+        elif sorted(committed) != sorted(["bumpver.toml", pat_name]) and state in ("clean", "mod_unstaged", "untracked", "del_unstaged") and extra_dirty != "staged":
             verdict = "bump commit contains %r, expected only the configured files" % (committed,)
     return case, verdict, status
 
@@ -150,6 +159,15 @@ def run(chk, driver, tier):
         chk.oracle_case(case, verdict, region if region in known else None)
         for files in (["bumpver.toml", "ver.txt"], ["bumpver.toml"], ["notes.txt"]):
             ops.append({"op": "dirty", "status": status, "files": files, "allow": allow})
+    # a SECOND dirty file that sorts before the target in the porcelain listing
+    for target, state, allow, extra in itertools.product(["pattern", "config", "unrelated"], ["clean", "mod_unstaged", "mod_staged", "del_unstaged", "untracked"],
+                                                        [False, True], ["staged", "unstaged", "untracked"]):
+        case, verdict, status = e2e(target, state, allow, extra_dirty=extra)
+        if case is None:
+            continue
+        chk.count("extra_dirty:" + extra)
+        chk.oracle_case(case, verdict)
+        ops.append({"op": "dirty", "status": status, "files": ["bumpver.toml", "ver.txt"], "allow": allow})
     chk.exhaustive = True
     # pattern files whose names git C-quotes: known finding F-C11-quoted
     for pat_name in ["a b.txt", "é.txt"]:
@@ -175,5 +193,5 @@ def search(chk, driver, tier):
 
 def replay(payload):
     c = payload["case"]
-    case, verdict, _ = e2e(c["target"], c["state"], c["allow_dirty"], c.get("pattern_file", "ver.txt"))
+    case, verdict, _ = e2e(c["target"], c["state"], c["allow_dirty"], c.get("pattern_file", "ver.txt"), c.get("extra_dirty"))
     return verdict
